@@ -249,6 +249,13 @@ def register(hub, props=("C13", "C15"), pool=None):
             if isinstance(t_.values, np.ndarray) and isinstance(s_.values, np.ndarray) and s_.values.size and np.shares_memory(t_.values, s_.values):
                 rec.violation(M15I, "__setitem__:target-shares-memory-with-the-assigned-array", {"op": op, "key": repr(call.args[1])[:80], "target_dims": list(t_.dims.letters), "source_dims": list(s_.dims.letters)}, prop="C15")
             return
+        if short == "__setitem__" and len(call.args) > 2 and isinstance(call.args[2], np.ndarray) and call.exc is None:
+            # "an ndarray assigned into an array through [] is copied"
+            t_, a_ = call.args[0], call.args[2]
+            rec.event(M15I, sig=f"setitem-ndarray|{tuple(t_.dims.letters)}|{a_.dtype}", cls="independence|assignment-target-vs-ndarray-source")
+            if isinstance(t_.values, np.ndarray) and a_.size and np.shares_memory(t_.values, a_):
+                rec.violation(M15I, "__setitem__:target-shares-memory-with-the-assigned-ndarray", {"op": op, "key": repr(call.args[1])[:80], "target_dims": list(t_.dims.letters), "source_dtype": str(a_.dtype), "target_dtype": str(t_.values.dtype)}, prop="C15")
+            return
         if short not in INDEPENDENT_RESULT or not isinstance(res, fd.FlodymArray):
             return
         sources = [(i, a) for i, a in enumerate(call.args) if isinstance(a, fd.FlodymArray)]
